@@ -13,6 +13,8 @@ in-memory overlays. Expected: every check exits 0 and prints exactly the KNOWN-F
  M8 rename     : every function-local variable renamed
  M9 ternary    : every conditional expression flipped (`a if c else b` -> `b if not c else a`)
  M10 augassign : `x op= e` on plain names rewritten to `x = x op e`
+ M11 hoist     : call arguments that are calls are hoisted into temporaries
+ M12 inline    : single-use temporaries are inlined into the next statement
 """
 from __future__ import annotations
 
@@ -181,6 +183,76 @@ class M10(ast.NodeTransformer):
         return node
 
 
+class M11(ast.NodeTransformer):
+    """hoist call arguments that are calls into temporaries: `return f(g(a), h(b))` -> `t1 = g(a); t2 = h(b); return f(t1, t2)`
+    (only in straight-line statement lists, only for calls without starred/keyword-unpacking; evaluation order is preserved)."""
+
+    def __init__(self):
+        self.k = 0
+
+    def _hoist(self, body):
+        out = []
+        for st in body:
+            if isinstance(st, (ast.Return, ast.Assign)) and isinstance(getattr(st, "value", None), ast.Call) and not isinstance(st.value.func, ast.Lambda):
+                c = st.value
+                if not any(isinstance(a, ast.Starred) for a in c.args) and all(k.arg for k in c.keywords):
+                    pre = []
+                    safe = True
+                    # only hoist when every earlier argument is a name/constant/attribute or is hoisted too (keeps left-to-right order)
+                    new_args = []
+                    for a in c.args:
+                        if isinstance(a, ast.Call) and not any(isinstance(x, (ast.Lambda, ast.Await, ast.NamedExpr)) for x in ast.walk(a)):
+                            self.k += 1
+                            nm = f"hoisted_arg_{self.k}"
+                            pre.append(ast.Assign(targets=[ast.Name(id=nm, ctx=ast.Store())], value=a))
+                            new_args.append(ast.Name(id=nm, ctx=ast.Load()))
+                        else:
+                            new_args.append(a)
+                    if pre and safe:
+                        c.args = new_args
+                        out += pre
+            out.append(st)
+        return out
+
+    def visit_FunctionDef(self, node):
+        self.generic_visit(node)
+        node.body = self._hoist(node.body)
+        return node
+
+
+class M12(ast.NodeTransformer):
+    """inline a local that is assigned once (from a pure-looking expression) and used exactly once in the very next statement."""
+
+    def visit_FunctionDef(self, node):
+        self.generic_visit(node)
+        body = node.body
+        i = 0
+        while i + 1 < len(body):
+            st, nx = body[i], body[i + 1]
+            if isinstance(st, ast.Assign) and len(st.targets) == 1 and isinstance(st.targets[0], ast.Name) and isinstance(nx, (ast.Return, ast.Assign, ast.Expr, ast.AugAssign)):
+                v = st.targets[0].id
+                stores = sum(1 for n in ast.walk(node) if isinstance(n, ast.Name) and n.id == v and isinstance(n.ctx, ast.Store))
+                loads = [n for n in ast.walk(node) if isinstance(n, ast.Name) and n.id == v and isinstance(n.ctx, ast.Load)]
+                loads_nx = [n for n in ast.walk(nx) if isinstance(n, ast.Name) and n.id == v and isinstance(n.ctx, ast.Load)]
+                if stores == 1 and len(loads) == 1 and len(loads_nx) == 1 and not any(isinstance(x, (ast.Lambda, ast.ListComp, ast.GeneratorExp, ast.DictComp, ast.SetComp)) for x in ast.walk(nx)):
+                    tgt = loads_nx[0]
+                    # the use must be the first thing evaluated in the next statement? keep it simple: only when the next statement has no other call
+                    calls_nx = [c for c in ast.walk(nx) if isinstance(c, ast.Call)]
+                    if len(calls_nx) <= 1:
+                        for n in ast.walk(nx):
+                            for f, val in ast.iter_fields(n):
+                                if val is tgt:
+                                    setattr(n, f, st.value)
+                                elif isinstance(val, list):
+                                    for k2, x in enumerate(val):
+                                        if x is tgt:
+                                            val[k2] = st.value
+                        del body[i]
+                        continue
+            i += 1
+        return node
+
+
 MUTATORS: Dict[str, Callable[[ast.Module], ast.Module]] = {
     "M1-reformat": lambda t: t,
     "M2-logging": lambda t: M2().visit(t),
@@ -192,6 +264,8 @@ MUTATORS: Dict[str, Callable[[ast.Module], ast.Module]] = {
     "M8-rename-locals": lambda t: M8().visit(t),
     "M9-ternary-flip": lambda t: M9().visit(t),
     "M10-augassign": lambda t: M10().visit(t),
+    "M11-hoist-args": lambda t: M11().visit(t),
+    "M12-inline-temps": lambda t: M12().visit(t),
 }
 
 
